@@ -59,10 +59,21 @@ type vsymEtcd struct {
 	watches  []*vsymEtcdWatch
 	leases   map[clientv3.LeaseID]*vsymEtcdLease
 	nextID   int64
-	onOp     func(op, key string) // scheduling point / fault hook; returning is "proceed"
+	onOp     func(op, key string)      // scheduling point / fault hook; returning is "proceed"
+	onOpWho  func(who, op, key string) // the same, also told which client calls
+	onOpDone func(who, op, key string) // after the operation took effect, before the caller sees the reply
 	failNext func(op, key string) bool
 	log      []string
 	mu       sync.Mutex // native runs only: the code under test calls the model from several goroutines
+}
+
+// unlockForHook releases the native lock around a scheduling hook called from inside an operation.
+func (e *vsymEtcd) unlockForHook() func() {
+	if vsym_Symbolic() {
+		return func() {}
+	}
+	e.mu.Unlock()
+	return e.mu.Lock
 }
 
 // lock serialises the model's operations in native runs (replay, validation). Under the executor
@@ -95,12 +106,17 @@ type vsymEtcdFacade struct {
 	lastLease clientv3.LeaseID
 }
 
-func (e *vsymEtcd) hook(op, key string) error {
+func (e *vsymEtcd) hook(op, key string) error { return e.hookAs("", op, key) }
+
+func (e *vsymEtcd) hookAs(who, op, key string) error {
 	un := e.lock()
 	e.log = append(e.log, op+":"+key)
 	un()
 	if e.onOp != nil {
 		e.onOp(op, key)
+	}
+	if e.onOpWho != nil {
+		e.onOpWho(who, op, key)
 	}
 	if e.failNext != nil && e.failNext(op, key) {
 		return vsymErrEtcd
@@ -192,7 +208,7 @@ func (f *vsymEtcdFacade) leaseFor(op clientv3.Op) clientv3.LeaseID {
 }
 
 func (f *vsymEtcdFacade) Put(ctx context.Context, key, val string, opts ...clientv3.OpOption) (*clientv3.PutResponse, error) {
-	if err := f.e.hook("put", key); err != nil {
+	if err := f.e.hookAs(f.who, "put", key); err != nil {
 		return nil, err
 	}
 	defer f.e.lock()()
@@ -208,7 +224,7 @@ func (f *vsymEtcdFacade) Put(ctx context.Context, key, val string, opts ...clien
 }
 
 func (f *vsymEtcdFacade) Get(ctx context.Context, key string, opts ...clientv3.OpOption) (*clientv3.GetResponse, error) {
-	if err := f.e.hook("get", key); err != nil {
+	if err := f.e.hookAs(f.who, "get", key); err != nil {
 		return nil, err
 	}
 	defer f.e.lock()()
@@ -217,7 +233,7 @@ func (f *vsymEtcdFacade) Get(ctx context.Context, key string, opts ...clientv3.O
 }
 
 func (f *vsymEtcdFacade) Delete(ctx context.Context, key string, opts ...clientv3.OpOption) (*clientv3.DeleteResponse, error) {
-	if err := f.e.hook("delete", key); err != nil {
+	if err := f.e.hookAs(f.who, "delete", key); err != nil {
 		return nil, err
 	}
 	defer f.e.lock()()
@@ -307,7 +323,7 @@ func (t *vsymEtcdTxn) Commit() (*clientv3.TxnResponse, error) {
 	if len(t.cmps) > 0 {
 		key = string(t.cmps[0].Key)
 	}
-	if err := e.hook("txn", key); err != nil {
+	if err := e.hookAs(t.f.who, "txn", key); err != nil {
 		return nil, err
 	}
 	defer e.lock()()
@@ -342,6 +358,13 @@ func (t *vsymEtcdTxn) Commit() (*clientv3.TxnResponse, error) {
 		}
 	}
 	resp.Header = e.header()
+	if e.onOpDone != nil {
+		// the reply travels back: the caller may be preempted before it sees it (natively the
+		// model's lock is not held here)
+		un := e.unlockForHook()
+		e.onOpDone(t.f.who, "txn", key)
+		un()
+	}
 	return (*clientv3.TxnResponse)(resp), nil
 }
 
@@ -351,7 +374,7 @@ func (f *vsymEtcdFacade) Watch(ctx context.Context, key string, opts ...clientv3
 	e := f.e
 	op := clientv3.OpGet(key, opts...)
 	w := &vsymEtcdWatch{key: key, end: string(op.RangeBytes()), ch: make(chan clientv3.WatchResponse, 64), ctx: ctx, startRev: op.Rev()}
-	_ = e.hook("watch", key)
+	_ = e.hookAs(f.who, "watch", key)
 	defer e.lock()()
 	if w.startRev > 0 {
 		// replay history from the requested revision
@@ -384,7 +407,7 @@ func (f *vsymEtcdFacade) Close() error { return nil }
 // ---- clientv3.Lease ----------------------------------------------------------------------
 
 func (f *vsymEtcdFacade) Grant(ctx context.Context, ttl int64) (*clientv3.LeaseGrantResponse, error) {
-	if err := f.e.hook("grant", f.who); err != nil {
+	if err := f.e.hookAs(f.who, "grant", f.who); err != nil {
 		return nil, err
 	}
 	defer f.e.lock()()
@@ -425,7 +448,7 @@ func (e *vsymEtcd) expireLocked(id clientv3.LeaseID) {
 }
 
 func (f *vsymEtcdFacade) Revoke(ctx context.Context, id clientv3.LeaseID) (*clientv3.LeaseRevokeResponse, error) {
-	if err := f.e.hook("revoke", f.who); err != nil {
+	if err := f.e.hookAs(f.who, "revoke", f.who); err != nil {
 		return nil, err
 	}
 	defer f.e.lock()()
